@@ -1036,6 +1036,9 @@ func (ds *AnySource) ChangeTriggerState(state *FullTriggerState) error {
 		if channelIndex >= ds.nchan {
 			return fmt.Errorf("channelIndex %v is >= ds.nchan %v", channelIndex, ds.nchan)
 		}
+		if channelIndex < 0 {
+			return fmt.Errorf("channelIndex %v is negative", channelIndex)
+		}
 	}
 	for _, channelIndex := range state.ChannelIndices {
 		dsp := ds.processors[channelIndex]
